@@ -6,9 +6,16 @@
 # (harness/overlay/fakeexpect); /repo itself is not touched.
 set -e
 cd "$(dirname "$0")/harness"
+# the repository under verification (tools/try_seed_iso.sh points this at a
+# scratch copy; every registered command uses /repo)
+REPO=${VERIF_REPO:-/repo}
+BUILD=$(cd .. && pwd)/.build
+if [ "$REPO" != /repo ]; then
+  go mod edit -replace github.com/hknutzen/Netspoc-Approve/go=$REPO/go
+fi
 export GOFLAGS=-mod=mod GOPROXY=off GOSUMDB=off GOTOOLCHAIN=local
 export GOCACHE=${GOCACHE:-/root/.cache/go-build}
-cp /repo/go/go.sum go.sum.repo 2>/dev/null || true
+cp $REPO/go/go.sum go.sum.repo 2>/dev/null || true
 # keep our go.sum a superset of the repository's
 if [ -f go.sum ]; then sort -u go.sum go.sum.repo > go.sum.new && mv go.sum.new go.sum; else cp go.sum.repo go.sum; fi
 rm -f go.sum.repo
@@ -27,25 +34,25 @@ go build -tags verif -overlay ../.build/overlay.json -o ../.build/verif ./cmd/ve
 # repository is rewritten (tools/maprange) to go through verifmap.Order
 (cd ../tools/maprange && go build -o ../../.build/maprange .)
 rm -rf ../.build/mapr
-../.build/maprange /repo/go "$(cd .. && pwd)/.build/mapr" > ../.build/maprange.log
-go run ./cmd/lockpoints /repo/go "$(cd .. && pwd)/.build/lockpoints_main.go"
-python3 - "$EXPDIR" "$OV" <<'EOP'
+../.build/maprange $REPO/go "$(cd .. && pwd)/.build/mapr" > ../.build/maprange.log
+go run ./cmd/lockpoints $REPO/go "$(cd .. && pwd)/.build/lockpoints_main.go"
+python3 - "$EXPDIR" "$OV" "$REPO" <<'EOP'
 import json,sys,os
-expdir,ov=sys.argv[1],sys.argv[2]
+expdir,ov,repo=sys.argv[1],sys.argv[2],sys.argv[3]
 build=os.path.abspath(os.path.join(os.getcwd(),'..','.build'))
 m=json.load(open(os.path.join(build,'mapr','overlay.json')))['Replace']
 m[expdir+'/expect.go']=ov+'/expect.go'
 m[expdir+'/codes.go']=ov+'/empty.go'
 m[expdir+'/codes_string.go']=ov+'/empty.go'
-m['/repo/go/pkg/verifmap/order.go']=os.path.join(os.getcwd(),'overlay','verifmap','order.go')
-m['/repo/go/pkg/verifsched/sched.go']=os.path.join(os.getcwd(),'overlay','verifsched','sched.go')
-assert '/repo/go/pkg/device/main.go' not in m, "device/main.go has a range over a map now: merge the two rewrites"
-m['/repo/go/pkg/device/main.go']=os.path.join(build,'lockpoints_main.go')
+m[repo+'/go/pkg/verifmap/order.go']=os.path.join(os.getcwd(),'overlay','verifmap','order.go')
+m[repo+'/go/pkg/verifsched/sched.go']=os.path.join(os.getcwd(),'overlay','verifsched','sched.go')
+assert repo+'/go/pkg/device/main.go' not in m, "device/main.go has a range over a map now: merge the two rewrites"
+m[repo+'/go/pkg/device/main.go']=os.path.join(build,'lockpoints_main.go')
 json.dump({'Replace':m},open(os.path.join(build,'overlay-map.json'),'w'),indent=1)
 EOP
 go build -tags "verif verifmap" -overlay ../.build/overlay-map.json -o ../.build/verif-map ./cmd/verif
 # the repository's own binaries (used by process-level checks), built
 # without any overlay
 if true; then
-  (cd /repo/go && go build -o /verif/.build/bin/ ./cmd/...)
+  (cd $REPO/go && go build -o "$BUILD/bin/" ./cmd/...)
 fi
